@@ -39,7 +39,7 @@ PROPS["C10"] = dict(
     level_note="Trusted: system libogg, harness pager. Links come from the bundled encoder. A seekable open with an initial buffer is not generated (documented for streaming use).",
     rule="case = chain + (per path) read-size schedule, request-length schedule, initial-buffer length, sync chunking; non-trivial = at least one path uses a non-constant schedule; "
          "distinct by hash of chain description and tape position",
-    require_labels=["1-byte reads", "initial buffer", "chained (streaming crosses link boundaries)"],
+    require_labels=["1-byte reads", "initial buffer", "chained (streaming crosses link boundaries)", "ov_read (integer) path"],
     assumptions=["system libogg 1.3.5 is correct"],
 )
 
@@ -66,6 +66,31 @@ PROPS["C08"] = dict(_SEEK_COMMON, sources=["props/c08.cpp"], design_ref="3.9",
     rule="case = chain (1..4 links) + op history with targets biased to page/packet/link boundaries +-1, 0 and L; non-trivial = a successful seek followed by a data-returning read with >= 2 calls made; "
          "distinct by hash of (chain, history)",
     require_labels=["op pcm_seek", "op pcm_seek_page", "op time_seek", "op time_seek_page", "op out-of-range seek", "seek to L then EOF", "chained with seek"],
+)
+
+PROPS["C20"] = dict(_SEEK_COMMON, sources=["props/c20.cpp"], design_ref="3.21",
+    technique="stateful property-based testing (rapidcheck tapes): generated histories with ov_halfrate toggles, audio compared bit-exactly with a half-rate packet-level decode, positions against a model",
+    level_text="Generated histories (reads, all five seeks, reopen, ov_halfrate on/off at arbitrary points) on generated chained files; with half rate on every read must be bit-identical to the half-rate packet-level decode "
+               "of the link at (tell - link start)/2, tell advances by two per sample, ov_pcm_seek lands on the link's even grid at or below the target, totals stay full-rate, each link delivers ceil(N/2) samples; "
+               "switching off must give full-rate audio bit-identical to the plain decode at the reported position.",
+    level_note="Trusted: system libogg, harness pager, packet-level half-rate decode (vorbis_synthesis_halfrate before synthesis_init) as ground truth. Chains whose interior links have odd length are generated "
+               "(1 in 6) with position checks relaxed by one sample, because the statement's clauses conflict there (DESIGN 3.21). The refusal clause (64-sample blocks) needs synthetic streams.",
+    rule="case = chain (1..3 links) + op history with ov_halfrate toggles; non-trivial = a toggle after at least one read, followed by a successful seek and a data-returning read; distinct by hash of (chain, history)",
+    require_labels=["op halfrate on", "op halfrate off", "halfrate on after a read", "halfrate off after a read", "halfrate on before first read", "toggle after a read, then seek, then read", "op pcm_seek"],
+)
+
+PROPS["C16"] = dict(
+    engine="rc", engine_name="rc-tape", sources=["props/c16.cpp"], level="exploration", design_ref="3.17",
+    quick=dict(cases=2500), thorough=dict(cases=30000),
+    technique="property-based testing (rapidcheck tapes): pack/unpack round trip of generated comment lists, independent parser of the packet, reference model of the tag queries",
+    level_text="Generated comment lists (0..3000 entries, lengths 0..350 kB, arbitrary bytes, embedded zeros and NULL entries through hand-built arrays, C strings through vorbis_comment_add/add_tag), packed by "
+               "vorbis_commentheader_out or vorbis_analysis_headerout, parsed by an independent spec-level reader, unpacked by vorbis_synthesis_headerin and read through ov_comment; exact oracle on count, lengths, bytes, "
+               "order, zero termination and vendor string; vorbis_comment_query/query_count compared with a model (ASCII-only case folding, n-th match in insertion order) under the C, C.UTF-8 and POSIX locales.",
+    level_note="Trusted: system libogg bit packer. No non-C locale is installed in the image, so a regression to locale-dependent toupper() is visible only for bytes >= 0x80 (tags with such bytes are generated).",
+    rule="case = comment list (entry kinds: tag=value, no tag, empty, tag only, value containing '='; tags from a pool with random case changes) + installation path + packer + query tags/indices; "
+         "non-trivial = two entries whose tags differ only in case, or an entry with an embedded zero byte; distinct by hash of the list",
+    require_labels=["embedded zero byte", "duplicate tag in different case", "empty list", "hundreds of entries", ">100 kB of comments", "query with >=2 matches", "read back through ov_comment", "packed by vorbis_analysis_headerout", "NULL entry"],
+    assumptions=["system libogg 1.3.5 is correct"],
 )
 
 NOT_APPLICABLE = {}
